@@ -251,11 +251,25 @@ def rule_dvalue(program, ctx):
     for s in walk_no_nested(fn):
         if isinstance(s, ast.Assign) and isinstance(s.value, ast.Constant) and s.value.value is None and isinstance(s.targets[0], ast.Name) and s.targets[0].id.startswith("d"):
             dvar = s.targets[0].id
+        # conditional-expression spelling: d_tag = get_d_value(event) if event.is_paramaterized_replaceable else None
+        if isinstance(s, ast.Assign) and isinstance(s.value, ast.IfExp) and isinstance(s.targets[0], ast.Name) and s.targets[0].id.startswith("d") \
+                and any(isinstance(b, ast.Constant) and b.value is None for b in (s.value.body, s.value.orelse)):
+            dvar = s.targets[0].id
     if dvar is None:
         ctx.bad(finding_func(P, rid, fn, "LMDB: the new event's d value is not tracked", text="def _post_save(...) :: d variable"))
         return
     none_sites_ok = True
     for s in stores_of(fn, dvar):
+        if isinstance(s, ast.Assign) and isinstance(s.value, ast.IfExp):
+            ie = s.value
+            none_in_else = isinstance(ie.orelse, ast.Constant) and ie.orelse.value is None
+            none_in_body = isinstance(ie.body, ast.Constant) and ie.body.value is None
+            tt = ast.unparse(ie.test)
+            okc = ("is_paramaterized_replaceable" in tt) and ((none_in_else and not isinstance(ie.test, ast.UnaryOp)) or (none_in_body and isinstance(ie.test, ast.UnaryOp) and isinstance(ie.test.op, ast.Not)))
+            if (none_in_else or none_in_body) and not okc:
+                none_sites_ok = False
+                ctx.bad(finding_at(P, rid, s, f"`{dvar}` is None under `{tt[:60]}`: for a parameterized-replaceable event None means 'no d filter' and every older event of that author and kind is deleted"))
+            continue
         if isinstance(s, ast.Assign) and isinstance(s.value, ast.Constant) and s.value.value is None:
             from ..lib import guard_atoms
             atoms = guard_atoms(s, stop=fn)
